@@ -29,6 +29,7 @@ def ops : PointOps (ZMod 7) where
   containsPoint _ _ := true
   mkPoint x _ := (x : ZMod 7)
   fromAffine A := A
+  isInfObj A := decide (A = 0)
 
 theorem correct : PointOpsCorrect ops (1 : ZMod 7) id xc (fun _ => True) where
   n_prime := by decide
@@ -50,5 +51,6 @@ theorem correct : PointOpsCorrect ops (1 : ZMod 7) id xc (fun _ => True) where
   yOf A _ h := ⟨0, by simp [ops, show A ≠ 0 from h], by decide, by decide⟩
   scale A _ := ⟨A, rfl, trivial, rfl⟩
   fromAffine A _ := ⟨trivial, rfl⟩
+  isInfObj A _ h := by simp [ops, show A ≠ 0 from h]
 
 end Ecdsa.Toy
